@@ -415,6 +415,7 @@ type c10cfg struct {
 	trackSecond bool // follow the auction of the second position (owner: the other account)
 	shiftAuc   uint64 // auction-id counter ahead by this much (as English auctions of the module leave it)
 	shiftLv    uint64 // locked-vault-id counter ahead by this much (as other liquidations leave it)
+	lendBonus  string // lend kinds: LiquidationBonus of the collateral asset ("" = the fixture's 0.05, "0" = no auction bonus)
 }
 
 // start builds one seized position the way the chain does and prints the begin line.
@@ -484,6 +485,12 @@ func c10start(t *testing.T, f *c10fix, tr *Trace, cfg c10cfg) *c10seq {
 			return fail("liquidate")
 		}
 	case "lend", "lendkeeper", "lendcross":
+		if cfg.lendBonus != "" {
+			if r, found := app.LendKeeper.GetAssetRatesParams(ctx, s.p.coll.id); found {
+				r.LiquidationBonus = c10dec(cfg.lendBonus)
+				app.LendKeeper.SetAssetRatesParams(ctx, r)
+			}
+		}
 		c10setTwa(app, ctx, s.p.coll.id, cfg.dropTo, true)
 		if cfg.kind == "lendcross" {
 			// borrow 3 of the fixture: collateral lent to pool 1, debt borrowed from pool 2 over a bridge asset
@@ -570,6 +577,20 @@ func c10start(t *testing.T, f *c10fix, tr *Trace, cfg c10cfg) *c10seq {
 		cfg.minUsd, cfg.T, c10raw(c10dec(cfg.premium)), c10raw(c10dec(cfg.discount)), cm, cfg.dropTo) + lendExtra
 	tr.Line("dutch.begin", s.env, s.state())
 	tr.Count("begin:" + cfg.kind)
+	if lv.InitiatorType == "lend" {
+		if lv.BonusToBeGiven.IsZero() {
+			tr.Count("begin:lend:without-bonus")
+		} else {
+			tr.Count("begin:lend:with-bonus")
+		}
+	}
+	if lv.InitiatorType == "external" {
+		if lv.BonusToBeGiven.IsZero() {
+			tr.Count("begin:external:without-bonus")
+		} else {
+			tr.Count("begin:external:with-bonus")
+		}
+	}
 	return s
 }
 
@@ -596,6 +617,7 @@ func (s *c10seq) bid(who string, amt sdk.Int) bool {
 	if ok {
 		if _, open := s.auction(); !open {
 			s.tr.Count("close")
+			s.tr.Count("close:branch:" + s.kind) // vault* → bid.go:161-190, external → :122-158, lend* → :191-202
 		} else {
 			s.tr.Count("partial-fill")
 		}
@@ -1901,6 +1923,13 @@ func TestC10(t *testing.T) {
 		s.tick(20 * time.Minute)
 		s.bid("b2", sdk.NewInt(100000000))
 	}
+	// lend close without an auction bonus (LiquidationBonus of the collateral asset 0), closed by one bid
+	lcfg.kind, lcfg.pair, lcfg.amountOut, lcfg.dropTo, lcfg.lendBonus = "lendkeeper", 0, sdk.NewInt(70000000), 1800000, "0"
+	if s = c10start(t, fl, tr, lcfg); s != nil {
+		s.tick(20 * time.Minute)
+		s.bid("b2", sdk.NewInt(100000000))
+	}
+	lcfg.lendBonus = ""
 	// ---- emergency shutdown while a lend- / externally initiated auction is alive: inside the window the price keeps falling,
 	// past the end of the window the iterator leaves such an auction exactly as it is (no update, no restart) — seeded change s81
 	lcfg.kind, lcfg.pair, lcfg.amountOut, lcfg.dropTo = "lendkeeper", 0, sdk.NewInt(70000000), 1800000
@@ -1942,6 +1971,7 @@ func TestC10(t *testing.T) {
 		if cfg.reserve > 1000 {
 			cfg.reserve = 200000000
 		}
+		cfg.lendBonus = []string{"", "0", "0", "0.1"}[rng.Intn(4)]
 		s := c10start(t, fl, tr, cfg)
 		if s == nil {
 			continue
